@@ -47,7 +47,9 @@ pub fn run_one(b: u64, kind: &str, labels: &[String], seed: u64) -> Value {
     let salt2 = salt.clone();
     let policy: Policy = Box::new(move |me, m, w| {
         let q = m.q.clone().unwrap_or_default();
-        if !(q == "get" || q == "get_signed_peers") {
+        // kind mutable_via_peers: the lookup on the item's target is a get_peers lookup (the target doubles as a swarm id); its
+        // responders answer with get-mutable-shaped responses, and a get_mutable caller JOINS that lookup
+        if !(q == "get" || q == "get_signed_peers" || (q == "get_peers" && kind2 == "mutable_via_peers")) {
             return Reply::Default;
         }
         if me.idx >= labels2.len() {
@@ -149,7 +151,8 @@ pub fn run_one(b: u64, kind: &str, labels: &[String], seed: u64) -> Value {
         "signed_peers" => GetKind::SignedPeers,
         _ => GetKind::Mutable { salt: salt.clone(), seq: None },
     };
-    let mut call = sim.call_get(c, gk.clone(), target, "get");
+    let first_kind = if kind == "mutable_via_peers" { GetKind::Peers } else { gk.clone() };
+    let mut call = sim.call_get(c, first_kind, target, "get");
     sim.poke(c);
     // a second caller asks for the same thing on the same node while the lookup is still running (every response has
     // been processed by then): it is handed what the lookup has recorded so far and then the rest of the stream
